@@ -599,6 +599,9 @@ func scripts() []*script {
 		// the two smallest scenarios once more, one deviation deeper in the thorough tier (bound 4; quick: base schedule only)
 		{name: "a_pubA_deep", reqs: one(a), pubs: P{{{a}}}, cancel: noCancel, delta: -2, deltaT: 1},
 		{name: "pubA_a_deep", reqs: one(a), pubs: P{{{a}}}, cancel: noCancel, pubFirst: true, delta: -2, deltaT: 1},
+		// last (a budget hit under load costs only these): two of the two-request scenarios at the full thorough bound 3
+		{name: "two_a_ab_pubAB_deep", reqs: []reqSpec{{keys: []int{a}}, {keys: []int{a, b}}}, pubs: P{{{a, b}}}, cancel: noCancel, delta: -2},
+		{name: "two_a_a_pubA_cancel0_deep", reqs: []reqSpec{{keys: []int{a}}, {keys: []int{a}}}, pubs: P{{{a}}}, cancel: 0, delta: -2},
 	}
 }
 
@@ -627,7 +630,7 @@ func scenarios(r *eng.Run) []*vexp.Scenario {
 func main() {
 	eng.WorkerMain = func() { vexp.Register(scenarios(nil)...); eng.WorkerMain() }
 	eng.Main("C37", "model_checking", func(r *eng.Run) {
-		r.Rule("every schedule (thread interleaving, select-case choice) of each scenario with at most B deviations from the base schedule (continue the running thread, else the lowest-numbered enabled thread; first ready select case; fair defaults in busy-wait loops); B = 2 quick / 3 thorough, two-request scenarios 2 (the largest 1 quick / 2 thorough), the two smallest scenarios additionally with B = 4 in thorough; a case is non-trivial when it has >= 1 deviation; each execution is a distinct choice sequence run on the rewritten real notifications.PubSub + cskr/pubsub + getter")
+		r.Rule("every schedule (thread interleaving, select-case choice) of each scenario with at most B deviations from the base schedule (continue the running thread, else the lowest-numbered enabled thread; first ready select case; fair defaults in busy-wait loops); B = 2 quick / 3 thorough, two-request scenarios 2 (the largest 1 quick / 2 thorough), the two smallest scenarios additionally with B = 4 and two of the two-request scenarios additionally with B = 3 in thorough; a case is non-trivial when it has >= 1 deviation; each execution is a distinct choice sequence run on the rewritten real notifications.PubSub + cskr/pubsub + getter")
 		r.Assume("vsched models channels, select and sync faithfully; context cancellation is native (Done channels are polled)")
 		r.Assume("the want manager behind the want / cancel-wants callbacks is a recorder: receipt of a block on the publish path is taken to clean the want-list for that key, as client.receiveBlocksFrom -> SessionManager.ReceiveFrom does")
 		vexp.Explore(r, scenarios(r), vexp.Options{Bound: eng.Pick(r, 2, 3)})
